@@ -20,6 +20,8 @@ var numberTexts = []string{
 	"1e39", "-1e39", "3.4028235e38", "3.4028236e38", "3.5e38", "1e400", "-1e400", "1e-400", "1e-50", "1e10", "1e19", "1e20",
 	"1.00000005960464477539062500000000000000000001", "0.1", "3.14", "16777217", "0.30000000000000004", "5e-324", "1.7976931348623157e308",
 	"123456789012345678901234567890", "0e1001", "1e1001", "10e-1",
+	// integral literals with a fraction/exponent above 2^53: canonical reads them exactly, a float64 detour would not
+	"9007199254740993.0", "9.007199254740993e15", "9223372036854775807.0", "922337203685477580.7e1", "18446744073709551615.0", "-9223372036854775807.0",
 }
 
 // strings: non-numeric spellings, enum names, base64 variants, escapes (JSON source form, with quotes)
